@@ -221,6 +221,9 @@ struct Ex<'a> {
     ctx: &'a mut Ctx,
     /// the no-overlap invariant is reported when it breaks, not on every later operation
     overlapping: bool,
+    /// C08: address -> byte most recently written there through any path, independent of the area
+    /// structure (entries are dropped when their address stops being mapped)
+    flat: std::collections::BTreeMap<u64, u8>,
 }
 
 enum R<T> {
@@ -345,6 +348,52 @@ impl<'a> Ex<'a> {
         if newly {
             self.ctx.dev("C10", format!("C10|invariant|overlap|after={}", sig_prefix.split('|').nth(1).unwrap_or("?")), format!("{detail}: two areas intersect: {:?}", self.m.areas.iter().map(|a| (a.start, a.len)).collect::<Vec<_>>()));
             self.ctx.probe("overlap_observed");
+        }
+    }
+
+    /// remember what was written (bounded: only ranges up to 8 KiB are tracked)
+    /// ranges that wrap past 2^64 (and machines that contain a wrapping area) are the permissive zone
+    fn flat_off(&self, addr: u64, len: usize) -> bool {
+        addr as u128 + len as u128 > 1u128 << 64 || self.m.areas.iter().any(|a| a.start as u128 + a.len as u128 > 1u128 << 64)
+    }
+
+    fn flat_write(&mut self, addr: u64, data: &[u8]) {
+        if data.len() > 0x2000 {
+            return;
+        }
+        if self.flat_off(addr, data.len()) {
+            self.flat.clear();
+            return;
+        }
+        for (k, b) in data.iter().enumerate() {
+            self.flat.insert(addr.wrapping_add(k as u64), *b);
+        }
+    }
+
+    /// a successful read must return, for every address, the byte most recently written to that address
+    fn flat_check(&mut self, name: &str, addr: u64, got: &[u8]) {
+        if got.len() > 0x2000 || self.flat_off(addr, got.len()) {
+            return;
+        }
+        for (k, b) in got.iter().enumerate() {
+            if let Some(w) = self.flat.get(&addr.wrapping_add(k as u64)) {
+                if w != b {
+                    self.ctx.dev("C08", format!("C08|{name}|stale_or_foreign_byte"), format!("{name} at {:#x} returned {b:#04x}, the byte most recently written to that address is {w:#04x}", addr.wrapping_add(k as u64)));
+                    return;
+                }
+            }
+        }
+    }
+
+    /// forget bytes whose address is no longer mapped (after a shrink) or was re-initialised (new area, growth)
+    fn flat_forget(&mut self, start: u64, len: u64) {
+        if len == 0 {
+            return;
+        }
+        let end = start as u128 + len as u128;
+        let keys: Vec<u64> = self.flat.range(start..).take_while(|(k, _)| (**k as u128) < end).map(|(k, _)| *k).collect();
+        for k in keys {
+            self.flat.remove(&k);
         }
     }
 
@@ -512,6 +561,10 @@ impl<'a> Ex<'a> {
                 self.ctx.dev("C08", format!("C08|{name}|{cls}|{}|wrong_bytes", len_class(len)), format!("{name}({addr:#x}, {len}) returned bytes that differ from the most recent writes"));
             }
         }
+        if let R::Ok(bytes) = &r {
+            let b = bytes.clone();
+            self.flat_check(name, addr, &b);
+        }
         self.check_areas("C08", &format!("C08|{name}|changed_memory"), &format!("after {name}({addr:#x}, {len})"));
     }
 
@@ -551,6 +604,9 @@ impl<'a> Ex<'a> {
             let a = &mut self.m.areas[i];
             let off = (addr - a.start) as usize;
             a.data[off..off + len as usize].copy_from_slice(&data);
+        }
+        if r.is_ok() {
+            self.flat_write(addr, &data);
         }
         let p2 = Self::verdict_prop(cls);
         self.check_areas(p2, &format!("{p2}|{name}|{}", if r.is_ok() { "wrote_other_bytes" } else { "failed_write_changed_memory" }), &format!("after {name}({addr:#x}, {len} bytes) -> {}", r.class()));
@@ -646,6 +702,30 @@ impl<'a> Ex<'a> {
             self.m.gpr = gpr;
             self.m.xmm = xmm;
         }
+        if ok {
+            let n = size as usize;
+            match kind {
+                "store" => {
+                    let v = if size == 16 { self.ax.reg_read_128(SupportedRegister::XMM0).unwrap_or(0) } else { self.ax.reg_read_64(SupportedRegister::RAX).unwrap_or(0) as u128 };
+                    let bytes = v.to_le_bytes()[..n].to_vec();
+                    self.flat_write(addr, &bytes);
+                }
+                "load" => {
+                    let v = if size == 16 { self.ax.reg_read_128(SupportedRegister::XMM0).unwrap_or(0) } else { self.ax.reg_read_64(SupportedRegister::RAX).unwrap_or(0) as u128 };
+                    let bytes = v.to_le_bytes()[..n].to_vec();
+                    let nm = format!("guest_load{size}");
+                    self.flat_check(&nm, addr, &bytes);
+                }
+                _ => {
+                    // read-modify-write: the new bytes are whatever the API reads back now
+                    if let Ok(Ok(b)) = catch(|| self.ax.mem_read_bytes(addr, n as u64)) {
+                        self.flat_write(addr, &b);
+                    } else {
+                        self.flat_forget(addr, n as u64);
+                    }
+                }
+            }
+        }
         if kind != "rmw" && self.ax.verif_rflags() != flags_before {
             self.ctx.dev("C08", format!("C08|{name}|flags_changed"), "a MOV changed the flags".into());
         }
@@ -673,7 +753,8 @@ impl<'a> Ex<'a> {
         // window [rsp-8, rsp+16): if it is inside one area the access is valid whichever slot is used;
         // if it touches no area at all the access is invalid; otherwise no verdict
         let lo = rsp.wrapping_sub(8);
-        let inside = if rsp >= 8 { self.m.containing(lo, 24) } else { None };
+        let window_wraps = rsp < 8 || rsp > u64::MAX - 16;
+        let inside = if !window_wraps { self.m.containing(lo, 24) } else { None };
         let touches = self.m.areas.iter().any(|a| intersects(lo, 24, a.start, a.len)) || rsp < 8 || rsp > u64::MAX - 16;
         let exp: Option<bool> = match inside {
             Some(i) => Some(self.m.areas[i].prot & need == need),
@@ -732,6 +813,8 @@ impl<'a> Ex<'a> {
                     }
                     if !ok {
                         self.ctx.dev(prop, format!("{prop}|{name}|failed_access_changed_memory"), format!("{name} failed but memory changed"));
+                    } else if window_wraps {
+                        // the window wraps around the end of the address space: no claim about which bytes it covers
                     } else if outside {
                         self.ctx.dev("C08", format!("C08|{name}|wrote_other_bytes"), format!("{name} changed bytes outside the stack window"));
                     } else if kind == "pop" || kind == "ret" {
@@ -741,6 +824,7 @@ impl<'a> Ex<'a> {
             }
         }
         self.m = Model::from_ax(&self.ax);
+        self.flat_forget(lo, 24);
     }
 
     fn guest_fetch(&mut self, addr: u64) {
@@ -869,6 +953,7 @@ impl<'a> Ex<'a> {
             }
         }
         if r.is_ok() {
+            self.flat_forget(start, len);
             self.m.areas.push(MArea { start, len, prot: 3, data });
         }
         self.check_areas("C10", &format!("C10|{name}|{}", if r.is_ok() { "created_area_differs" } else { "rejected_request_changed_areas" }), &format!("after {name}({start:#x}, {len}) -> {}", r.class()));
@@ -916,6 +1001,7 @@ impl<'a> Ex<'a> {
                 if !self.m.free(*start, len, None) {
                     self.ctx.dev("C10", format!("{sig}|returned_range_overlaps"), format!("{name}({len}) returned {start:#x} which intersects an existing area"));
                 }
+                self.flat_forget(*start, len);
                 self.m.areas.push(MArea { start: *start, len, prot: 3, data });
                 self.ctx.probe("anywhere_ok");
                 if self.m.areas.len() > 1 && *start != 0x1000 {
@@ -946,6 +1032,7 @@ impl<'a> Ex<'a> {
                 if !self.m.free(*start, len, None) {
                     self.ctx.dev("C10", format!("{sig}|returned_range_overlaps"), format!("init_stack({len}) placed the stack at {start:#x} which intersects an existing area"));
                 }
+                self.flat_forget(*start, len);
                 self.m.areas.push(MArea { start: *start, len, prot: 3, data: vec![0; len as usize] });
                 self.m.gpr[6] = self.ax.reg_read_64(SupportedRegister::RSP).unwrap_or(0);
             }
@@ -1025,6 +1112,9 @@ impl<'a> Ex<'a> {
             }
         }
         if let (true, Some(i)) = (r.is_ok(), idx) {
+            let old_len = self.m.areas[i].len;
+            let (lo, hi) = if new_len < old_len { (new_len, old_len) } else { (old_len, new_len) };
+            self.flat_forget(start.wrapping_add(lo), hi - lo);
             let a = &mut self.m.areas[i];
             a.data.resize(new_len as usize, 0);
             a.len = new_len;
@@ -1071,7 +1161,7 @@ pub fn run(_prop: &str, sc: &Sc, ctx: &mut Ctx) {
         ctx.dev("C09", "C09|constructor|code_permissions".into(), format!("code area after new(): {:?}", m.areas.iter().map(|a| (a.start, a.len, a.prot)).collect::<Vec<_>>()));
     }
     // C07: initial contents come through the RNG seam: low 32 bits only for GPRs (documented behaviour)
-    let mut ex = Ex { ax, m, t, code_start: sc.code_start, ctx, overlapping: false };
+    let mut ex = Ex { ax, m, t, code_start: sc.code_start, ctx, overlapping: false, flat: std::collections::BTreeMap::new() };
     for op in sc.ops.iter() {
         ex.ctx.nontrivial = true;
         // asking for more memory than a host has is outside the properties (and ax allocates before it validates)
